@@ -51,7 +51,9 @@ def shards(tier, seed):
 	for p in payloads[:4] + payloads[7:9]:
 		out.append(dict(name=f'sys-{p["name"]}', kind='sys', payload=p, maxpoints=14 if tier == 'quick' else 400))
 	out.append(dict(name='sys-large-list', kind='sys', payload=payloads[9], maxpoints=10 if tier == 'quick' else 150))
-	out.append(dict(name='cli-create', kind='cli', maxpoints=10 if tier == 'quick' else 60))
+	ncli = 4 if tier == 'quick' else 8
+	for j in range(ncli):
+		out.append(dict(name=f'cli-create-{j}', kind='cli', part=j, nparts=ncli, nfiles=4 if tier == 'quick' else 8))
 	return out
 
 
@@ -326,7 +328,7 @@ def run_cli(sh, ctx):
 	from vf import clidrv
 	rng = random.Random(f'C19-cli-{ctx.seed}')
 	files, exps = [], []
-	for i in range(6):
+	for i in range(sh['nfiles']):
 		contigs = [bytes(rng.choice(b'ACGT') for _ in range(rng.randint(200, 800)))]
 		fp = ctx.workdir / f'g{i}.fasta'
 		write_fasta(fp, contigs)
@@ -358,7 +360,9 @@ def run_cli(sh, ctx):
 		return
 	total = int(data.split()[0])
 	ctx.notes['cli_storage_calls'] = total
-	pts, _ = select_points(total, sh['maxpoints'], rng)
+	# every storage call of the whole command (before and after), split over the cli-create-* shards
+	pts = [n for n in range(1, total + 1) if n % sh['nparts'] == sh['part']]
+	ctx.notes.setdefault('exhaustive_scopes', []).append(f'signatures create: every storage call 1..{total} (before/after), part {sh["part"]} of {sh["nparts"]}')
 
 	def load_cli(path):
 		r, wfd = os.pipe()
@@ -374,7 +378,7 @@ def run_cli(sh, ctx):
 					o = f'refused:{type(e).__name__}'
 				else:
 					try:
-						ok = len(h) == len(exps) and all(h[i].tolist() == exps[i] for i in range(len(exps))) and list(h.ids) == [f'g{i}' for i in range(6)]
+						ok = len(h) == len(exps) and all(h[i].tolist() == exps[i] for i in range(len(exps))) and list(h.ids) == [f'g{i}' for i in range(len(exps))]
 						o = 'loaded-equal' if ok else 'loaded-different:cli content'
 					except BaseException as e:
 						o = f'accepted-then-read-error:{type(e).__name__}'
